@@ -26,6 +26,7 @@ class Run:
         self.prop, self.tier, self.seed = prop, tier, seed
         self.t0 = time.time()
         self.mc = []                 # model-checking runs
+        self.model_viol = []
         self.exec_stats = []         # trace validation TLC stats
         self.scenarios = 0
         self.accepted = 0
@@ -46,14 +47,22 @@ class Run:
         return self.builds[variant]
 
     # ---- TLC model checking of the specification itself
-    def model_check(self, name, module, cfg, **kw):
+    def model_check(self, name, module, cfg, expect_violation=False, **kw):
         r = vlib.model_check(self.prop + "_" + name, module, cfg, **kw)
+        if expect_violation:
+            # demonstration run on the pre-fix model: the violation is the expected outcome and is only recorded
+            self.mc.append({"name": name, "module": module, "cfg": cfg, "states": r["states"], "distinct": r["distinct"], "depth": r["depth"],
+                            "wall_s": r["wall_s"], "expected_violation": r.get("violation"), "coverage": {}})
+            if r["ok"]:
+                self.notes.append("model check %s was expected to exhibit the pre-fix violation but passed" % name)
+            return r
         self.mc.append({k: r[k] for k in ("name", "module", "cfg", "states", "distinct", "depth", "wall_s", "ok", "coverage") if k in r})
         if not r["ok"]:
             # the specification's own invariant fails at design level: that is a finding about the model
             # (policy => safety); it is reported through the conformance run that reproduces it on the code.
             self.notes.append("model check %s: invariant %s violated at design level" % (name, r.get("violation")))
             self.mc[-1]["violation"] = r.get("violation")
+            self.model_viol.append(name + ":" + str(r.get("violation")))
         return r
 
     # ---- conformance: run scenario families and judge
@@ -127,7 +136,8 @@ class Run:
                     if cl in seen:
                         continue
                     seen.add(cl)
-                    tl = [ln for ln in lines if ('"id":"%s"' % sid) in ln]
+                    idx = [i for i, ln in enumerate(lines) if ('"id":"%s"' % sid) in ln]
+                    tl = lines[idx[0]:idx[-1] + 1] if idx else []
                     cands.append({"scenario": scen, "clause": cl, "fn": v.get("fn") or v.get("e"), "ty": res["ty"], "trace_lines": tl})
         return cands
 
